@@ -160,7 +160,7 @@ def consistency(idnt, mk, seg, k, w, init, viol, range_label=""):
     ref = model_reference(mk, pvk, xk)
     tolf = (1e-11 if k == 1 else 1e-9) * Fmax
     if np.any(np.isnan(fit[segm])) or \
-            np.max(np.abs(fit[segm] - ref)) > tolf:
+            not np.max(np.abs(fit[segm] - ref)) <= tolf:
         viol("fit-column", f"k={k}", "fit column differs from the model "
              "evaluated with the reported parameters: max |d| = "
              f"{np.nanmax(np.abs(fit[segm] - ref)):.3e} (F_max {Fmax:.2e})")
@@ -182,7 +182,7 @@ def consistency(idnt, mk, seg, k, w, init, viol, range_label=""):
         wt = np.ones_like(xk)
     expres = (y[segm] - fit[segm]) * wt
     tolr = 1e-12 * Fmax if k == 1 else 1e-9 * Fmax
-    if np.max(np.abs(res[segm] - expres)) > tolr:
+    if not np.max(np.abs(res[segm] - expres)) <= tolr:
         viol("residual-column", f"w={w}", "residual column != (data - fit)"
              " * weights: max |d| = "
              f"{np.max(np.abs(res[segm] - expres)):.3e}")
